@@ -370,6 +370,10 @@ func (rt *router) call(fr *routeFrame, c *ssa.Call) {
 		}
 		return
 	}
+	if g != nil && g.Pkg != nil && strings.HasSuffix(g.Pkg.Pkg.Path(), "go-openapi/errors") {
+		rt.run.events = append(rt.run.events, "ERROR["+g.Name()+"]")
+		return
+	}
 	if g == nil || !rt.p.InSubject(g) {
 		return
 	}
@@ -477,6 +481,9 @@ func ObjectRouting(p *core.Prog, r *core.Report) {
 			if core.StaticCallee(c) == matcher {
 				interesting[f] = true
 			}
+			if g := core.StaticCallee(c); g != nil && g.Name() == "PropertyNotAllowed" {
+				interesting[f] = true
+			}
 			for _, a := range c.Call.Args {
 				if pth, ok := core.StablePath(a); ok && strings.HasSuffix(pth, "AdditionalProperties.Schema") {
 					interesting[f] = true
@@ -504,7 +511,7 @@ func ObjectRouting(p *core.Prog, r *core.Report) {
 	patEvent := "PATTERNS(" + K + "," + V + ")"
 	addEvent := "VALIDATE[recv.AdditionalProperties.Schema](" + V + ")"
 	nRuns, nNormal := 0, 0
-	var missPat, missAdd, aborted []string
+	var missPat, missAdd, missForbid, spuriousForbid, aborted []string
 	config := func(run *routeRun) string {
 		var ks []string
 		for a, v := range run.atoms {
@@ -569,6 +576,33 @@ func ObjectRouting(p *core.Prog, r *core.Report) {
 		if enabled && !has(addEvent) {
 			missAdd = append(missAdd, config(run))
 		}
+		// additionalProperties: false — an undeclared member that no pattern matches is an error, and only then
+		at := func(a string) (bool, bool) { v, ok := run.atoms[a]; return v, ok }
+		forbidden := false
+		if n, ok := at("recv.AdditionalProperties==nil"); ok && !n {
+			if al, ok := at("recv.AdditionalProperties.Allows"); ok && !al {
+				forbidden = true
+			}
+		}
+		regular, regKnown := at("has(recv.Properties," + K + ")")
+		matchedByPattern := false
+		for a, v := range run.atoms {
+			if strings.HasPrefix(a, "ret0:MatchString(") && v {
+				matchedByPattern = true
+			}
+		}
+		special := false
+		for _, name := range []string{"\"$schema\"", "\"id\""} {
+			if v, ok := at(name + "==" + K); ok && v {
+				special = true
+			}
+		}
+		if forbidden && regKnown && !regular && !matchedByPattern && !special && !has("ERROR[PropertyNotAllowed]") {
+			missForbid = append(missForbid, config(run))
+		}
+		if has("ERROR[PropertyNotAllowed]") && (!forbidden || regular || matchedByPattern) {
+			spuriousForbid = append(spuriousForbid, config(run))
+		}
 	})
 	if total > 20000 {
 		r.Unk(rule, "object:enumeration:complete", p.Pos(entry.Pos()), "more than 20000 configurations: the enumeration was cut off")
@@ -583,6 +617,16 @@ func ObjectRouting(p *core.Prog, r *core.Report) {
 		r.OK(rule, "object:patternProperties:every-member", p.Pos(entry.Pos()), fmt.Sprintf("in each of the %d configurations that reach the normal return, the generic member (K,V) of the instance is handed to %s, which validates it against every matching pattern schema", nNormal, matcher.Name()))
 	} else {
 		r.Bad(rule, "object:patternProperties:every-member", p.Pos(entry.Pos()), fmt.Sprintf("in %d of %d configurations a member of the instance is never checked against patternProperties — e.g. when %s", len(missPat), nNormal, missPat[0]))
+	}
+	if len(missForbid) == 0 {
+		r.OK(rule, "object:additionalProperties:false", p.Pos(entry.Pos()), "with additionalProperties:false every member that is neither declared, nor matched by a pattern, nor one of the ignored names $schema / id raises 'property not allowed'")
+	} else {
+		r.Bad(rule, "object:additionalProperties:false", p.Pos(entry.Pos()), fmt.Sprintf("in %d configurations an undeclared, unmatched member passes although additionalProperties is false — e.g. when %s", len(missForbid), missForbid[0]))
+	}
+	if len(spuriousForbid) == 0 {
+		r.OK(rule, "object:additionalProperties:false:only-then", p.Pos(entry.Pos()), "'property not allowed' is raised only when additionalProperties is false and the member is neither declared nor matched")
+	} else {
+		r.Bad(rule, "object:additionalProperties:false:only-then", p.Pos(entry.Pos()), fmt.Sprintf("in %d configurations 'property not allowed' is raised for a declared or matched member, or although additional properties are allowed — e.g. when %s", len(spuriousForbid), spuriousForbid[0]))
 	}
 	if len(missAdd) == 0 {
 		r.OK(rule, "object:additionalProperties:schema", p.Pos(entry.Pos()), "a member that is neither a declared property nor matched by a pattern is validated against additionalProperties whenever that is a schema")
